@@ -50,14 +50,15 @@ def list_behaviours(workdir, inst, maxlen, maxitems=3, maxcmt=2, maxnl=2, maxw=2
     return r, behs
 
 
-def drift(workdir, behs, maxw, unit):
+def drift(workdir, behs, maxw, unit, pred="pred", ro=False):
     """Format every behaviour with the real code at widths 0..maxw; count disagreements with the model."""
-    inp = os.path.join(workdir, "beh-inputs.ndjson")
+    inp = os.path.join(workdir, "beh-inputs%s.ndjson" % ("-ro" if ro else ""))
     with open(inp, "w") as f:
         for b in behs:
             f.write(json.dumps({"id": b["id"], "text": b["text"]}) + "\n")
-    outp = os.path.join(workdir, "beh-outputs.ndjson")
-    C.run([C.VT, "outputs", "--input", inp, "--out", outp, "--maxw", str(maxw), "--tab", str(unit)], timeout=1500)
+    outp = os.path.join(workdir, "beh-outputs%s.ndjson" % ("-ro" if ro else ""))
+    C.run([C.VT, "outputs", "--input", inp, "--out", outp, "--maxw", str(maxw), "--tab", str(unit), "--ro", "true" if ro else "false"],
+          timeout=1500)
     real = {}
     for line in open(outp):
         r = json.loads(line)
@@ -69,12 +70,12 @@ def drift(workdir, behs, maxw, unit):
         if r["perr"]:
             env_gap += 1          # the grammar environment produced a source the parser rejects
             continue
-        for w in sorted(int(k) for k in b["pred"]):          # the widths the model predicted (0..MaxW or a set)
+        for w in sorted(int(k) for k in b[pred]):          # the widths the model predicted (0..MaxW or a set)
             n += 1
-            if r["real"][w] != b["pred"][str(w)]:
+            if r["real"][w] != b[pred][str(w)]:
                 d += 1
                 if len(samples) < 5:
-                    samples.append(dict(id=b["id"], text=b["text"], w=w, model=b["pred"][str(w)], real=r["real"][w]))
+                    samples.append(dict(id=b["id"], text=b["text"], w=w, model=b[pred][str(w)], real=r["real"][w], reorder=ro))
     return dict(comparisons=n, drift=d, env_gap=env_gap, samples=samples), inp
 
 
@@ -252,5 +253,27 @@ def comment_behaviours(workdir, maxlines, leads=(0, 1, 3, 6), maxw=16, unit=2, g
             body = {"after": "w1 " + cm, "before": cm + " xx2", "mid": "w1 " + cm + " xx2", "own": "w1\n" + cm + "\nxx2"}[j["place"]]
             j["text"] = "#f[" + body + "]\n"
             j["id"] = "beh:comment:%s" % hashlib.sha256(j["text"].encode()).hexdigest()[:12]
+            behs.append(j)
+    return r, behs
+
+
+IMPORT_CFG = ("SPECIFICATION Spec\nCONSTANTS ItemIds = {%s}\n MaxItems = %d\n MaxTriv = %d\n MaxCmt = %d\n Widths = {%s}\n"
+              " Unit = %d\n GenOn = %s\n AsFoundI = {}\nINVARIANTS %s\nCHECK_DEADLOCK FALSE\n")
+IMPORT_WIDTHS = [0, 16, 20, 24, 28, 32, 40]
+
+
+def import_behaviours(workdir, ids=("a", "ab", "b", "ma"), maxitems=3, maxtriv=1, maxcmt=1, widths=IMPORT_WIDTHS, unit=2, gen=True,
+                      workers=8, timeout=1500):
+    """ImportMC: the items of an import statement with reordering off (pred) and on (pred_on)."""
+    cfg = IMPORT_CFG % (", ".join('"%s"' % k for k in ids), maxitems, maxtriv, maxcmt, ", ".join(map(str, widths)), unit,
+                        "TRUE" if gen else "FALSE", "InvAll" + (" Gen" if gen else ""))
+    r = C.model_check("ImportMC", cfg, workdir, workers=workers, xmx="8g", timeout=timeout)
+    behs = []
+    if gen:
+        for g in C.parse_tlc_tuple_lines(r["out"], "GEN"):
+            j = json.loads(C.unquote_tla_string(g))
+            body = concretise_events(j["seq"])
+            j["text"] = "#import \"m.typ\": " + (("(" + body + ")") if j["paren"] else body) + "\n"
+            j["id"] = "beh:import:%s" % hashlib.sha256(j["text"].encode()).hexdigest()[:12]
             behs.append(j)
     return r, behs
